@@ -398,29 +398,47 @@ func c05DepthLocated(a *ChildArgs) {
 		"case": strings.Repeat("CASE WHEN a THEN ", 120) + "1" + strings.Repeat(" END", 120), "not": strings.Repeat("NOT ", 150) + "a", "signs": strings.Repeat("- ", 150) + "1",
 		"subqueries": strings.Repeat("(SELECT ", 70) + "1" + strings.Repeat(")", 70),
 	} {
-		text := "SELECT a\nFROM t\nWHERE b = " + deep
-		toks, err := mustTokenizer().Tokenize([]byte(text))
-		if err != nil {
-			continue
-		}
-		a.Rec.Count("evaluations", 1)
-		a.Rec.Distinct("texts", text)
-		p := parser.NewParser()
-		_, perr := p.ParseFromModelTokensWithPositions(toks)
-		p.Release()
-		var ge *goerrors.Error
-		if perr == nil || !errors.As(perr, &ge) {
-			continue
-		}
-		wit := map[string]interface{}{"text": trunc(text, 200), "error": firstLine(perr.Error())}
-		if ge.Location.Line != 3 || ge.Location.Column < 11 || ge.Location.Column > len(deep)+12 {
-			a.Rec.Viol("C05/depth-error/"+name+"/"+string(ge.Code)+"/positions", "a syntax error is located at the offending token", fmt.Sprintf("the over-deep construct is on line 3 from column 11; the error is located at %d:%d", ge.Location.Line, ge.Location.Column), wit)
-		}
-		if _, rerrs := gosqlx.ParseWithRecovery(text); len(rerrs) > 0 {
-			var pe *parser.ParseError
-			var ce *goerrors.Error
-			if errors.As(rerrs[0], &pe) && errors.As(pe.Cause, &ce) && (pe.Line != 3 || ce.Location.Line != 3) {
-				a.Rec.Viol("C05/depth-error/"+name+"/"+string(ce.Code)+"/recovery", "a syntax error is located at the offending token", fmt.Sprintf("the over-deep construct is on line 3; the recovery error says %d:%d, its cause %d:%d", pe.Line, pe.Column, ce.Location.Line, ce.Location.Column), wit)
+		// the same construct at three different places, one call after the other in this process: each error is
+		// located in its own text
+		for _, lay := range []struct {
+			pre  string
+			line int
+			col  int
+		}{{"SELECT a\nFROM t\nWHERE b = ", 3, 11}, {"SELECT ", 1, 8}, {"\n\n\n\n      SELECT a,\n   ", 6, 4}} {
+			text := lay.pre + deep
+			if lay.line == 6 {
+				text += " FROM t"
+			}
+			toks, err := mustTokenizer().Tokenize([]byte(text))
+			if err != nil {
+				continue
+			}
+			a.Rec.Count("evaluations", 1)
+			a.Rec.Distinct("texts", text)
+			p := parser.NewParser()
+			_, perr := p.ParseFromModelTokensWithPositions(toks)
+			p.Release()
+			var ge *goerrors.Error
+			if perr == nil || !errors.As(perr, &ge) {
+				continue
+			}
+			wit := map[string]interface{}{"text": trunc(text, 200), "error": firstLine(perr.Error())}
+			if ge.Location.Line != lay.line || ge.Location.Column < lay.col || ge.Location.Column > len(deep)+lay.col+1 {
+				a.Rec.Viol("C05/depth-error/"+name+"/"+string(ge.Code)+"/positions", "a syntax error is located at the offending token", fmt.Sprintf("the over-deep construct is on line %d from column %d; the error is located at %d:%d", lay.line, lay.col, ge.Location.Line, ge.Location.Column), wit)
+			}
+			if _, rerrs := gosqlx.ParseWithRecovery(text); len(rerrs) > 0 {
+				var pe *parser.ParseError
+				var ce *goerrors.Error
+				if errors.As(rerrs[0], &pe) && errors.As(pe.Cause, &ce) && (pe.Line != lay.line || ce.Location.Line != lay.line) {
+					a.Rec.Viol("C05/depth-error/"+name+"/"+string(ce.Code)+"/recovery", "a syntax error is located at the offending token", fmt.Sprintf("the over-deep construct is on line %d; the recovery error says %d:%d, its cause %d:%d", lay.line, pe.Line, pe.Column, ce.Location.Line, ce.Location.Column), wit)
+				}
+			}
+			// the entry points that track no positions report no position (not one left over from another call)
+			if _, perr2 := parser.NewParser().ParseFromModelTokens(toks); perr2 != nil {
+				var g2 *goerrors.Error
+				if errors.As(perr2, &g2) && (g2.Location.Line != 0 || g2.Location.Column != 0) {
+					a.Rec.Viol("C05/depth-error/"+name+"/"+string(g2.Code)+"/position-without-tracking", "every reported location points into the input it belongs to", fmt.Sprintf("a parse without position tracking reports %d:%d", g2.Location.Line, g2.Location.Column), wit)
+				}
 			}
 		}
 	}
